@@ -25,6 +25,8 @@ func init() {
 }
 
 func runC02(c *core.Ctx) {
+	c.Rule("PADT", "outer join pads with nullable column types")
+	checkOuterJoinPadding(c, "PADT")
 	ids := typeIDs(c.Prog)
 	c.Rule("NULLKEY", "a key containing NULL is neither stored nor matched")
 	c.Rule("MIR1", "left/right halves of the joins are mirror images")
